@@ -16,6 +16,11 @@ LEVEL = 'other'
 
 def run(ctx):
     ptn = common.import_repo()
+    target = None
+    if ctx.replay is not None:
+        # cases are regenerated deterministically from (seed, tier); only the recorded one is validated again
+        rp = ctx.replay['replay']
+        ctx.seed, ctx.tier, target = int(rp.get('seed', ctx.seed)), str(rp.get('tier', ctx.tier)), rp.get('index')
     rng = np.random.default_rng(ctx.seed * 31 + 14)
     ctx.explanation = ('The factorization relations are floating-point facts: TLC decides the size / branch protocol exactly '
                        '(Krylov.tla model checked for all n, m, kdim of the bounds; every recorded call validated against it with an '
@@ -42,8 +47,12 @@ def run(ctx):
     ctx.notes['ambiguous'] = sum(1 for t in traces if t[0].get('ambiguous'))
     for t in traces[::max(1, len(traces) // 6)]:
         ctx.sample(t[0])
+    offset = 0
+    if target is not None and 0 <= int(target) < len(traces):
+        offset = int(target)
+        cases, traces = [cases[offset]], [traces[offset]]
     bad = validate_chunks(ctx, 'TraceKrylov', 'tk', traces, chunk=ctx.pick(400, 8000))
     for idx, why in sorted(bad.items())[:40]:
         clause = why[0][2] if why and len(why[0]) > 2 else 'rejected'
         c = cases[idx]
-        ctx.violation(f'krylov:{traces[idx][0].get("ev")}:{clause[:70]}', f'{ {k: c[k] for k in ("fam", "vk", "n", "m", "herm")} }: {clause}', dict(case=c, record=traces[idx][0]))
+        ctx.violation(f'krylov:{traces[idx][0].get("ev")}:{clause[:70]}', f'{ {k: c[k] for k in ("fam", "vk", "n", "m", "herm")} }: {clause}', dict(case=c, seed=ctx.seed, tier=ctx.tier, index=idx + offset, record=traces[idx][0]))
